@@ -660,7 +660,7 @@ impl World {
         while self.ctx_active() && (is_set(&self.ctx_flag) || !self.ctx_polled) {
             self.poll_ctx_once();
             n += 1;
-            if n > 200_000 {
+            if n > 20_000_000 {
                 self.stalled = true;
                 break;
             }
